@@ -188,6 +188,8 @@ def make_shims(world):
             A.broadcast_shapes(Aa.shape, Bb.shape)
         except AbstractError:
             raise
+        if getattr(W, "allclose_mode", None) == "record":
+            return Arr((), [True], "bool")
         if Aa.elems is None or Bb.elems is None:
             return Arr((), [Poly.fn("allclose_unknown")], "bool")
         ia = A._bcast_index(Aa.shape, A.broadcast_shapes(Aa.shape, Bb.shape))
